@@ -286,3 +286,40 @@ def check_tree_memo(run, program, method, slot, cls_name, rule_prefix="F-CACHE")
                 f"{p} is passed to {cls_name}(...) when the tree is built but ignored when a cached tree exists: "
                 f"the tree handed back does not reflect the {p} requested in this call",
             )
+
+
+# functions that may READ a conversion memo slot: the Grid method owning it and the data conversion that consumes its side tables
+SLOT_READERS = {
+    "_gdf_cached_parameters": {"Grid.to_geodataframe", "UxDataArray.to_geodataframe", "Grid.__init__"},
+    "_poly_collection_cached_parameters": {"Grid.to_polycollection", "UxDataArray.to_polycollection", "Grid.__init__"},
+    "_line_collection_cached_parameters": {"Grid.to_linecollection", "Grid.__init__"},
+}
+
+
+def check_slot_readers(run, program, rule_prefix="F-CACHE"):
+    """A memo slot of one conversion holds state of the LAST conversion's arguments (projection-shifted antimeridian faces ...).
+    Any other function that reads it makes a grid property or another operation depend on the conversion history."""
+    n = 0
+    for f in program.all_functions():
+        store_bases = {id(n2.value) for n2 in ast.walk(f.node) if isinstance(n2, ast.Subscript) and isinstance(n2.ctx, (ast.Store, ast.Del))}
+        sub_bases = {id(n2.value) for n2 in ast.walk(f.node) if isinstance(n2, ast.Subscript)}
+        # the slot object itself taken as a value (aliased, iterated, passed on): a read of everything in it
+        for node in ast.walk(f.node):
+            if isinstance(node, ast.Attribute) and node.attr in SLOT_READERS and isinstance(node.ctx, ast.Load) and id(node) not in sub_bases and id(node) not in store_bases:
+                if f.qualname not in SLOT_READERS[node.attr]:
+                    n += 1
+                    run.violation(f"{rule_prefix}/slot-readers", f"{f.key}:reads:{node.attr}[*]", where(f, node),
+                                  f"{f.qualname} takes the memo slot {node.attr} as a value (alias/iteration): state left behind by the last conversion is read outside the conversion that owns it, "
+                                  "so the result depends on which conversions ran before")
+        for node in ast.walk(f.node):
+            if isinstance(node, ast.Subscript) and isinstance(node.ctx, ast.Load) and isinstance(node.value, ast.Attribute) and node.value.attr in SLOT_READERS:
+                n += 1
+                slot = node.value.attr
+                c = f"{f.key}:reads:{slot}[{str_const(node.slice)}]"
+                if f.qualname in SLOT_READERS[slot]:
+                    run.holds(f"{rule_prefix}/slot-readers", c, where(f, node), f"{f.qualname} owns/consumes {slot}", nontrivial=False)
+                else:
+                    run.violation(f"{rule_prefix}/slot-readers", c, where(f, node),
+                                  f"{f.qualname} reads {slot}[{str_const(node.slice)!r}], state left behind by the last conversion (computed for that call's projection/periodic handling): "
+                                  "what it returns now depends on which conversions ran before")
+    return n
